@@ -5,17 +5,17 @@ verus! {
 pub type Time = u64;
 
 //@item src/time.rs :: struct Offset
-pub struct Offset {
+/*+*/#[derive(Debug)] /*-*/pub struct Offset {
     /*+*/pub /*-*/val: Time,
 }
 //@end
 //@item src/time.rs :: struct Duration
-pub struct Duration {
+/*+*/#[derive(Debug)] /*-*/pub struct Duration {
     /*+*/pub /*-*/val: Time,
 }
 //@end
 //@item src/time.rs :: struct Service
-pub struct Service {
+/*+*/#[derive(Debug)] /*-*/pub struct Service {
     /*+*/pub /*-*/val: Time,
 }
 //@end
